@@ -40,7 +40,7 @@ func (t *tr) statefulSetup(fd *ast.FuncDecl, outer map[types.Object]bool) {
 		if src, ok := isPath[o]; ok {
 			root, _, _ := strings.Cut(src, ".")
 			for p := range outer {
-				if p != nil && p.Name() == root {
+				if p != nil && f.rootCanon[p] == root {
 					st = append(st, o)
 				}
 			}
@@ -58,6 +58,7 @@ func (t *tr) statefulSetup(fd *ast.FuncDecl, outer map[types.Object]bool) {
 			st = append(st, v)
 		}
 	}
+	// by first occurrence in the source (no ranks are assigned here: the state components are ranked when the body reaches them)
 	sort.Slice(st, func(i, j int) bool {
 		if st[i].Pos() != st[j].Pos() {
 			return st[i].Pos() < st[j].Pos()
@@ -120,8 +121,9 @@ func (t *tr) externCall(x *ast.AssignStmt, c *ast.CallExpr, e externOp, s ast.St
 		t.fail(s, "external object %s has no value here", e.path)
 		return true
 	}
+	t.rank(obj)
 	args := c.Args
-	if _, isSel := c.Fun.(*ast.SelectorExpr); isSel && t.src(c.Fun) != e.callee {
+	if _, isSel := c.Fun.(*ast.SelectorExpr); isSel && t.ck(c) != e.callee {
 		return false
 	}
 	if len(args) == 2 { // function form: f(obj, buf)
@@ -172,7 +174,7 @@ func (t *tr) assignTupleComp(lhs ast.Expr, ty types.Type, val string, s ast.Stmt
 // tupleAssignStateful: `a, b := call` in a stateful function
 func (t *tr) tupleAssignStateful(x *ast.AssignStmt, c *ast.CallExpr, tup *types.Tuple, s ast.Stmt) bool {
 	f := t.f
-	callee := t.src(c.Fun)
+	callee := t.ck(c)
 	for _, e := range f.externs {
 		if e.callee == callee {
 			return t.externCall(x, c, e, s)
@@ -221,4 +223,159 @@ func (t *tr) tupleAssignStateful(x *ast.AssignStmt, c *ast.CallExpr, tup *types.
 		t.assignTupleComp(x.Lhs[i], ty, p, s)
 	}
 	return true
+}
+
+
+// statefulCall: `r1, …, rn := recv.helper(args)` (or the bare call) of a helper translated in stateful mode: its value is
+// (state components…, written parameters…, results…); the state components are written back to the caller's field
+// variables (same canonical paths), the written slice parameters to the argument windows, the results to the targets.
+func (t *tr) statefulCall(lhs []ast.Expr, c *ast.CallExpr, sg *fsig, s ast.Stmt) bool {
+	_, ok := t.statefulCallR(lhs, c, sg, s)
+	return ok
+}
+
+// statefulCallR also returns the Lean expressions of the results
+func (t *tr) statefulCallR(lhs []ast.Expr, c *ast.CallExpr, sg *fsig, s ast.Stmt) (results []string, okr bool) {
+	okr = true
+	f := t.f
+	name := calleeName(c)
+	if !f.stateful {
+		t.fail(s, "call of the stateful helper %s from a function that is not translated -stateful", name)
+		return nil, true
+	}
+	if len(lhs) != 0 && len(lhs) != len(sg.resTys) {
+		t.fail(s, "call of %s: %d targets for %d results", name, len(lhs), len(sg.resTys))
+		return nil, true
+	}
+	// arguments (implicit binders by name / current value of the path, written slice arguments as window contents)
+	type outw struct {
+		dst         types.Object
+		lo, hi      string
+		whole       bool
+	}
+	isOut := map[int]bool{}
+	for _, oi := range sg.outIdx {
+		isOut[oi-sg.nRecv] = true
+	}
+	var outs []outw
+	var args []string
+	next := 0
+	for i, b := range sg.binders {
+		if sg.implicit[i] {
+			if src, isPath := sg.pathSrc[b.name]; isPath {
+				v, have := f.env[t.pathVarNamed(src, c.Pos(), sg.pathTy[b.name])]
+				if !have {
+					t.fail(s, "callee %s needs %s, which has no value here", name, src)
+					return nil, true
+				}
+				args = append(args, v)
+				continue
+			}
+			if !f.hasBinder(b.name) {
+				t.fail(s, "callee %s needs the parameter %s, which this definition does not have", name, b.name)
+				return nil, true
+			}
+			args = append(args, b.name)
+			continue
+		}
+		if next >= len(c.Args) {
+			t.fail(s, "call arity of %s", name)
+			return nil, true
+		}
+		if isOut[next] {
+			dst, cur, lo, hi, ok := t.window(c.Args[next])
+			if !ok {
+				return nil, true
+			}
+			a := c.Args[next]
+			se, isSl := a.(*ast.SliceExpr)
+			whole := t.viewOf(a) == nil && (!isSl || (se.Low == nil && se.High == nil && t.viewOf(se.X) == nil))
+			outs = append(outs, outw{dst, lo, hi, whole})
+			if whole {
+				args = append(args, cur)
+			} else {
+				args = append(args, fmt.Sprintf("(GoSem.slice %s %s %s)", cur, lo, hi))
+			}
+		} else {
+			args = append(args, t.exprAs(c.Args[next], t.typeOf(c.Args[next])))
+		}
+		next++
+	}
+	if next != len(c.Args) {
+		t.fail(s, "call arity of %s", name)
+		return nil, true
+	}
+	var tys []string
+	for _, k := range sg.stateKeys {
+		v := f.pvars[k]
+		if v == nil {
+			t.fail(s, "callee %s changes %s, which is not a field variable here", name, k)
+			return nil, true
+		}
+		tys = append(tys, t.leanTypeOfObj(v))
+	}
+	for range outs {
+		tys = append(tys, "Bytes")
+	}
+	for _, rt := range sg.resTys {
+		tys = append(tys, t.leanType(rt))
+	}
+	n := len(tys)
+	if n == 0 {
+		t.fail(s, "stateful callee %s without a value", name)
+		return nil, true
+	}
+	tmp := t.define("call_"+name, strings.Join(tys, " × "), sg.qual+" "+strings.Join(args, " "))
+	proj := func(i int) string {
+		if n == 1 {
+			return tmp
+		}
+		p := tmp
+		for j := 0; j < i; j++ {
+			p += ".2"
+		}
+		if i < n-1 {
+			p += ".1"
+		}
+		return p
+	}
+	i := 0
+	for _, k := range sg.stateKeys {
+		v := f.pvars[k]
+		t.rank(v)
+		f.env[v] = t.define(v.Name(), t.leanTypeOfObj(v), proj(i))
+		i++
+	}
+	for _, o := range outs {
+		if o.whole {
+			t.store(o.dst, s, proj(i))
+		} else {
+			t.store(o.dst, s, fmt.Sprintf("GoSem.copyInto %s %s %s %s", f.env[o.dst], o.lo, o.hi, proj(i)))
+		}
+		i++
+	}
+	for j, rt := range sg.resTys {
+		results = append(results, proj(i))
+		if len(lhs) > 0 {
+			var ty types.Type
+			if k, _ := classify(rt); k != kErr {
+				ty = rt
+			}
+			t.assignTupleComp(lhs[j], ty, proj(i), s)
+		}
+		i++
+	}
+	return results, true
+}
+
+// statefulSig: the signature of a stateful helper that a call targets
+func (t *tr) statefulSig(e ast.Expr) (*ast.CallExpr, *fsig) {
+	c, ok := e.(*ast.CallExpr)
+	if !ok {
+		return nil, nil
+	}
+	if sg := t.calleeSig(c); sg != nil && sg.stateful {
+		return c, sg
+	}
+	return nil, nil
 }
